@@ -4,7 +4,8 @@ import ast
 
 from .. import astutil as A
 from ..cfg import cfg_of
-from ..dataflow import derives
+from ..dataflow import derives, expand
+from ..loader import enclosing_stmt as A_stmt
 from ..linear import Lin, eq, entails
 from ..sched import SchedulerAnalysis, Tag
 
@@ -105,6 +106,8 @@ def r02_1(ck, sa):
     ip = A.params_of(inv.node)
     for c in A.calls_in(inv.node, 'send_command'):
         args = A.arg_of(c, 1, 'args')
+        if args is not None:
+            args = expand(inv.node, args, A_stmt(c))
         ok = isinstance(args, ast.Tuple) and len(args.elts) == 2 and \
             A.is_name(args.elts[0], ip[1]) and A.is_name(args.elts[1], ip[2])
         ck.require(ok, 'R02.1', inv, c,
